@@ -395,3 +395,17 @@ type KUnixPtr struct {
 	V  *int64  `gorm:"serializer:unixtime;type:time"`
 	W  *uint32 `gorm:"serializer:unixtime;type:time"`
 }
+
+// polymorphic has-many (C12)
+type Toy struct {
+	ID        uint
+	Name      string
+	OwnerID   uint
+	OwnerType string
+}
+
+type Kid struct {
+	ID   uint
+	Name string
+	Toys []Toy `gorm:"polymorphic:Owner"`
+}
